@@ -305,7 +305,7 @@ def merge_tie(ctx, npays, ncases):
 TAG_RECURSIVE = 228          # only used to decide how to PRINT a message (ints vs bytes); the tags themselves are
                              # compared against the generated constants inside the extracted model
 COLL_KIND = {"MPI_Allgather": 1, "MPI_Allgatherv": 2, "MPI_Alltoall": 3, "MPI_Reduce_scatter_block": 4}
-COSIM_TYPES = [0, 1, 2, 3, 4, 5]
+COSIM_TYPES = [0, 1, 2, 3, 4, 5, 6]
 
 
 def _npay(sz):
@@ -333,6 +333,38 @@ def _mask_records(b, npay, sz):
     return bytes(b)
 
 
+def nbx_events(raw, q):
+    """events of rank q for the nbx program: every Iprobe is a wildcard receive whose matched source is -1 when flag = 0
+    (a successful Iprobe and the Recv that follows it are one receive), Testall / Ibarrier / Test are poll actions with
+    their flag as reply; the second phase of the dispatcher (Isend / named Recv) follows unchanged"""
+    evs = []
+    mine = sorted([e for e in raw if e.get("r") == q], key=lambda e: e.get("s", 0))
+    pending = None
+    for e in mine:
+        f = e.get("f", "")
+        if f in ("MPI_Issend", "MPI_Isend", "MPI_Send"):
+            evs.append("S %x %x %s" % (e["dest"], e["tag"], mpitrace.hexints(bytes.fromhex(e.get("d", "")), 1)))
+        elif f == "MPI_Iprobe":
+            if e.get("flag", 0):
+                pending = e
+            else:
+                evs.append("R -1 %x -1 -" % e["tag"])
+        elif f == "MPI_Recv":
+            data = mpitrace.hexints(bytes.fromhex(e.get("d", "")), 1)
+            if pending is not None and pending.get("msrc") == e.get("src"):
+                evs.append("R -1 %x %x %s" % (e["tag"], e.get("msrc", 0), data))
+                pending = None
+            else:
+                evs.append("R %x %x %x %s" % (e["src"], e["tag"], e.get("msrc", 0), data))
+        elif f == "MPI_Testall":
+            evs.append("C 6 -1 - %x" % (1 if e.get("flag") else 0))
+        elif f == "MPI_Ibarrier":
+            evs.append("C 7 -1 - -")
+        elif f == "MPI_Test":
+            evs.append("C 8 -1 - %x" % (1 if e.get("flag") else 0))
+    return evs
+
+
 def cosim_line(case, run, q, trace_by_rank, accum_targets):
     c = case
     P = c.P
@@ -348,7 +380,9 @@ def cosim_line(case, run, q, trace_by_rank, accum_targets):
         vec = [1 if t in accum_targets[q] else 0 for t in range(P)]
         hits = sum(1 for r in range(P) for t in accum_targets[r] if t == q)
         evs.append("C 5 -1 %s %x" % (",".join("%x" % v for v in vec) if vec else "-", hits))
-    for e in mpitrace.canonical_windows(mpitrace.merge_probe_recv(trace_by_rank[q])):
+    if c.type == 6:
+        evs += nbx_events(run.trace, q)
+    for e in ([] if c.type == 6 else mpitrace.canonical_windows(mpitrace.merge_probe_recv(trace_by_rank[q]))):
         if e[0] == "S":
             unit = 4 if e[2] >= TAG_RECURSIVE else 1
             data = _mask_records(e[3], npay, sz) if e[2] >= TAG_RECURSIVE + 32 else e[3]
